@@ -65,6 +65,8 @@ func (o Op) String() string {
 		s += fmt.Sprint(o.B)
 	case "incr", "setcur", "refill", "ewma":
 		s += fmt.Sprintf("%d(%d)", o.B, o.N)
+	case "setprio":
+		s += fmt.Sprintf("%d(%d)", o.B, o.N)
 	case "settotal", "prio":
 		s += fmt.Sprintf("%d(%d,%v)", o.B, o.N, o.F)
 	case "abort":
@@ -313,6 +315,10 @@ func (x *X) buildDecorR(r *runner, bar, side, ord int, ds DecorSpec) decor.Decor
 			d = decor.Percentage(wc)
 		case "counters":
 			d = decor.CountersNoUnit("%d/%d", wc)
+		case "counterskib":
+			d = decor.CountersKibiByte("% .1f / % .1f", wc)
+		case "counterskb":
+			d = decor.CountersKiloByte("%.1f/%.1f", wc)
 		case "elapsed":
 			d = decor.Elapsed(decor.ET_STYLE_GO, wc)
 		case "avgeta":
@@ -550,6 +556,8 @@ func (r *runner) do(client int, op Op) {
 			bar.Abort(op.F)
 		case "prio":
 			r.p.UpdateBarPriority(bar, int(op.N), op.F)
+		case "setprio":
+			bar.SetPriority(int(op.N))
 		case "write":
 			n, err := r.p.Write([]byte(op.S))
 			if err != nil {
